@@ -500,3 +500,96 @@ Proof.
   exists (mkS Untyped [0%N; 1%N]), [[1; 2]; [3; 4]]%Z, [true; true].
   vm_compute. discriminate.
 Qed.
+
+(* ====================================================================== *)
+(* Round 3: the caller's own objects (Model/C03_Heap.v, section Args)      *)
+(* ====================================================================== *)
+(* [arun early copy st prog]: a session whose state also holds a pool of the CALLER's list objects
+   (column names / positions, masks, index lists).  A call is handed pool object a ITSELF
+   (ACollect / AGetItem / ASelect / AFilter / ATake), the same object any number of times, on any
+   frames; APeek looks at it; AAppend r is DataFrame.append (in place).  [copy] says whether
+   collect() copies a list it is handed before its in-place name -> position rewrite: the code as
+   it stands is [true]. *)
+
+(* No session - any calls, any frames, any order, raising or not - alters any of the caller's lists. *)
+Theorem C03_session_never_alters_the_callers_lists :
+  forall (V : Type) (veqb : V -> V -> bool) (dflt : V) (Nm : Type) (nmeqb : Nm -> Nm -> bool)
+         (early : bool) (prog : list (astepd V Nm)) (st : astate V Nm),
+  a_pool (fst (arun V veqb dflt Nm nmeqb early true st prog)) = a_pool st.
+Proof. exact arun_pool_kept. Qed.
+Print Assumptions C03_session_never_alters_the_callers_lists.
+
+(* What collect()'s in-place rewrite loop leaves in the list it runs on (the copy): the positions,
+   in the frame it was called on, that the functional resolution used by code_collect computes - a
+   ValueError from a missing name leaves the flag false.  (So run on the caller's list it would
+   replace the names by positions of that one frame.) *)
+Theorem C03_collect_rewrite_is_the_resolution :
+  forall (Nm : Type) (nmeqb : Nm -> Nm -> bool) (src : list Nm) (v : argobj Nm),
+  match resolve_cols Nm nmeqb src (map (as_colref Nm) v) with
+  | Ok zs => exists v', rewrite_cols Nm nmeqb src v = (v', true) /\ map (as_colref Nm) v' = map CIdx zs
+  | Raise _ => snd (rewrite_cols Nm nmeqb src v) = false
+  end.
+Proof. exact rewrite_cols_resolve. Qed.
+Print Assumptions C03_collect_rewrite_is_the_resolution.
+
+(* A list-backed frame is altered by no call of a session, whatever objects the calls are handed
+   (either binding, copied or not), except an append() to that very frame ... *)
+Theorem C03_session_step_keeps_list_backed_frames :
+  forall (V : Type) (veqb : V -> V -> bool) (dflt : V) (Nm : Type) (nmeqb : Nm -> Nm -> bool)
+         (early copy : bool) (st : astate V Nm) (s : astepd V Nm) (j : nat) (sc : schema Nm) (l : list (list V)),
+  nth_error (henv (a_h st)) j = Some (mkH sc (RL l)) ->
+  (forall r, a_op s = AAppend r -> Nat.modulo (a_src s) (length (henv (a_h st))) <> j) ->
+  nth_error (henv (a_h (fst (astep V veqb dflt Nm nmeqb early copy st s)))) j = Some (mkH sc (RL l)).
+Proof. exact astep_keeps_lists. Qed.
+Print Assumptions C03_session_step_keeps_list_backed_frames.
+
+Theorem C03_session_without_append_keeps_list_backed_frames :
+  forall (V : Type) (veqb : V -> V -> bool) (dflt : V) (Nm : Type) (nmeqb : Nm -> Nm -> bool)
+         (early copy : bool) (prog : list (astepd V Nm)) (st : astate V Nm) (j : nat) (sc : schema Nm) (l : list (list V)),
+  nth_error (henv (a_h st)) j = Some (mkH sc (RL l)) ->
+  (forall s r, In s prog -> a_op s <> AAppend r) ->
+  nth_error (henv (a_h (fst (arun V veqb dflt Nm nmeqb early copy st prog)))) j = Some (mkH sc (RL l)).
+Proof. exact arun_keeps_lists. Qed.
+Print Assumptions C03_session_without_append_keeps_list_backed_frames.
+
+(* ... which adds the row at the end of that frame and touches nothing else (no other frame - so
+   no frame an operator returned shares its row container with its source -, no generator, no list
+   of the caller). *)
+Theorem C03_append_adds_the_row_to_its_frame_only :
+  forall (V : Type) (veqb : V -> V -> bool) (dflt : V) (Nm : Type) (nmeqb : Nm -> Nm -> bool)
+         (early copy : bool) (st : astate V Nm) (src i : nat) (sc : schema Nm) (l : list (list V)) (r : list V),
+  Nat.modulo src (length (henv (a_h st))) = i ->
+  nth_error (henv (a_h st)) i = Some (mkH sc (RL l)) -> kind sc = Untyped ->
+  astep V veqb dflt Nm nmeqb early copy st (mkAStep src (AAppend r)) =
+  (mkAS (mkHS (upd i (mkH sc (RL (l ++ [r]))) (henv (a_h st))) (hheap (a_h st))) (a_pool st), AOut (HNew [])).
+Proof. exact astep_append. Qed.
+Print Assumptions C03_append_adds_the_row_to_its_frame_only.
+
+(* non-vacuity: the session of the round-3 demonstration - one list ['c','a'] handed to collect,
+   to select, to collect on the projection, and to indexing of a frame with the columns reversed -
+   gives the named columns every time and leaves the list alone; append reaches one frame only *)
+Example C03_session_nonvacuous :
+  c03a_run true
+    ([mkHI (mkS Untyped [0%N; 1%N; 2%N]) [[1; 2; 3]; [4; 5; 6]]%Z false;
+      mkHI (mkS Untyped [2%N; 1%N; 0%N]) [[30; 20; 10]]%Z true],
+     [[AName 2%N; AName 0%N]],
+     [mkAStep 0 (ACollect 0 None); mkAStep 0 (APeek 0); mkAStep 0 (ASelect 0); mkAStep 2 (ACollect 0 None);
+      mkAStep 1 (AGetItem 0); mkAStep 0 (APeek 0);
+      mkAStep 0 (APlain (HOp (Head 1%Z))); mkAStep 0 (AAppend [7; 8; 9]%Z); mkAStep 3 (APlain HList); mkAStep 0 (APlain HList)], [])
+  = [AOut (HVal (OCols [[3; 6]; [1; 4]]%Z)); AArg [AName 2%N; AName 0%N]; AOut (HNew [[2%N; 0%N]]);
+     AOut (HVal (OCols [[3; 6]; [1; 4]]%Z)); AOut (HVal (OCols [[30]; [10]]%Z)); AArg [AName 2%N; AName 0%N];
+     AOut (HNew [[0%N; 1%N; 2%N]]); AOut (HNew []); AOut (HVal (ORows [[1; 2; 3]]%Z));
+     AOut (HVal (ORows [[1; 2; 3]; [4; 5; 6]; [7; 8; 9]]%Z))].
+Proof. vm_compute. reflexivity. Qed.
+
+(* the round-3 seeded change (collect() no longer copies a list it is handed) is refuted: the
+   caller's names are replaced by positions of the first frame, and handing the list on fails *)
+Example C03_collect_rewrites_callers_list_refuted :
+  exists (c : zacase),
+    c03a_run true c = [AOut (HVal (OCols [[3; 6]; [1; 4]]%Z)); AArg [AName 2%N; AName 0%N]; AOut (HNew [[2%N; 0%N]])] /\
+    c03a_run false c = [AOut (HVal (OCols [[3; 6]; [1; 4]]%Z)); AArg [AInt 2%Z; AInt 0%Z]; AOut (HVal (ORaise ValueError))].
+Proof.
+  exists ([mkHI (mkS Untyped [0%N; 1%N; 2%N]) [[1; 2; 3]; [4; 5; 6]]%Z false], [[AName 2%N; AName 0%N]],
+          [mkAStep 0 (ACollect 0 None); mkAStep 0 (APeek 0); mkAStep 0 (ASelect 0)], []).
+  split; vm_compute; reflexivity.
+Qed.
